@@ -22,7 +22,7 @@ CONSTANTS
   HdrLen = %(hdr)d
   StoreExt = %(sext)d
   ExpExt = %(eext)d
-  CKiB = 64
+  CKiB = 512
   Protos = %(protos)s
   Ops = %(ops)s
   TextOps = %(textops)s
